@@ -156,7 +156,7 @@ def run_shard(args):
 
 
 def write_replay(prop_id, sub_name, viol):
-    d = os.path.join(VERIF_DIR, "replays", prop_id)
+    d = os.path.join(os.environ.get("VERIF_REPLAY_DIR") or os.path.join(VERIF_DIR, "replays"), prop_id)
     os.makedirs(d, exist_ok=True)
     body = {"property": prop_id, "subcheck": sub_name, "label": viol["label"], "case": viol["case"],
             "failures": viol["fails"]}
@@ -166,7 +166,7 @@ def write_replay(prop_id, sub_name, viol):
     p = os.path.join(d, name)
     with open(p, "w") as f:
         f.write(js)
-    return os.path.relpath(p, VERIF_DIR)
+    return os.path.relpath(p, VERIF_DIR) if p.startswith(VERIF_DIR + os.sep) else p
 
 
 def replay(prop_id, path):
